@@ -27,6 +27,7 @@ from ahbicht.content_evaluation.fc_evaluators import FcEvaluator
 from ahbicht.content_evaluation.rc_evaluators import RcEvaluator
 from ahbicht.expressions.hints_provider import HintsProvider
 from ahbicht.expressions.package_expansion import PackageResolver
+from ahbicht.content_evaluation.evaluationdatatypes import EvaluationContext
 from ahbicht.models.condition_nodes import EvaluatedFormatConstraint
 from ahbicht.models.mapping_results import PackageKeyConditionExpressionMapping
 from vstat_ext import (vstat_astimezone, vstat_component, vstat_offset_equals, vstat_same_wallclock, vstat_text,
@@ -35,7 +36,7 @@ from vstat_ext import (vstat_astimezone, vstat_component, vstat_offset_equals, v
 
 class StubRcEvaluator(RcEvaluator):
     def _get_default_context(self):
-        return None
+        return EvaluationContext(scope=None)  # a fresh default context per call, as custom evaluators provide it
 
     def get_evaluation_method(self, condition_key):  # the public look-up hook of Evaluator
         return self.stub_methods.get(condition_key)
